@@ -131,9 +131,28 @@ def cases(tier):
 
 
 # ------------------------------------------------------------------------- reference
+class _Conv(np.ndarray):
+    """Marks data that reaches the image by conversion AFTER construction: the image is built
+    around integer-typed (uint8) data and its array is then replaced by this float array, as
+    ``img.img = img.img / 255`` or ``astype(float)`` + rescaling do.  The image's current
+    values and dtype are what every operation has to work on."""
+
+
+def _converted(spatial, payload, dtype):
+    if np.dtype(dtype) != np.float64:
+        return []
+    return [(_generic(spatial, payload, dtype) / 4.0 + 0.375).view(_Conv)]
+
+
 def _make(arr, payload, space_dim=2, origin=None, cls=None):
     """A darsia image with dyadic voxel sizes VS around ``arr`` (fresh metadata lists)."""
     import darsia
+
+    if isinstance(arr, _Conv):
+        values = np.array(arr, dtype=np.float64, subok=False)
+        img = _make(np.zeros(values.shape, dtype=np.uint8), payload, space_dim, origin, cls)
+        img.img = values
+        return img
 
     shape = arr.shape[:space_dim]
     kw = dict(
@@ -415,7 +434,7 @@ def _run_refine(case, r):
     shape, dt, pl = tuple(case["shape"]), np.dtype(case["dtype"]), case["payload"]
     chk = _Once(r)
     dims = [VS[0] * shape[0], VS[1] * shape[1]]
-    data = _basis(shape, pl, dt) + [_generic(shape, pl, dt)]
+    data = _basis(shape, pl, dt) + [_generic(shape, pl, dt)] + _converted(shape, pl, dt)
     for lev in LEVELS:
         if lev != 0:
             r.nontriv(("refine", shape, str(dt), pl, lev))
@@ -466,7 +485,7 @@ def _run_extrude(case, r):
     shape, dt, pl = tuple(case["shape"]), np.dtype(case["dtype"]), case["payload"]
     chk = _Once(r)
     dims = [VS[0] * shape[0], VS[1] * shape[1]]
-    data = _basis(shape, pl, dt) + [_generic(shape, pl, dt)]
+    data = _basis(shape, pl, dt) + [_generic(shape, pl, dt)] + _converted(shape, pl, dt)
     for num in (1, 2, 3):
         for height in (0.5, 2.0):
             r.nontriv(("extrude", shape, str(dt), pl, num, height))
@@ -493,7 +512,7 @@ def _run_reduce(case, r):
     chk = _Once(r)
     dims = [VS[a] * shape[a] for a in range(dim)]
     origin = USER_ORIGIN[dim] if case["origin"] == "user" else None
-    data = _basis(shape, pl, dt) + [_generic(shape, pl, dt)]
+    data = _basis(shape, pl, dt) + [_generic(shape, pl, dt)] + _converted(shape, pl, dt)
     addr = [(p, "index", p) for p in range(dim)] + [(name, "name", p) for name, p in sorted(NAME2IDX[dim].items())]
     for axis, how, p in addr:
         kept = [dims[a] for a in range(dim) if a != p]
